@@ -125,6 +125,7 @@ def parseOp (ws : List String) : Option Op :=
     match ← parseBatch b with
     | some b => pure (.seedNext (← nat? c) b)
     | none => none
+  | ["subsidy", a, id, n, op] => do pure (.subsidy (← ofHex a) (← nat? id) (← nat? n) (← ofHex op))
   | ["create", c, id, seller, amt, req, recv, data] => do
     pure (.create { chain := ← nat? c, id := ← ofHex id, seller := ← ofHex seller, amount := ← nat? amt,
                     requested := ← nat? req, sellerRecv := ← ofHex recv, data := ← ofHex data })
